@@ -551,7 +551,7 @@ def latest_mjd(plate, **kwargs):
     else:
         platevec = plate
     mjd = np.zeros(len(platevec), dtype='i4')
-    mjdre = re.compile(r'spPlate-[0-9]{4}-([0-9]{5}).fits')
+    mjdre = re.compile(r'spPlate-[0-9]{4,}-([0-9]{5}).fits')
     unique_plates = np.unique(platevec)
     paths = spec_path(unique_plates,
                       **{k: kwargs[k] for k in ('path', 'topdir', 'run2d')
